@@ -26,7 +26,30 @@ def strip_parens(s):
     return s
 
 
+def _len_arg(e):
+    if isinstance(e, ast.Call) and isinstance(e.func, ast.Name) and e.func.id == "len" and len(e.args) == 1 and not e.keywords:
+        return e.args[0]
+    return None
+
+
+def _is_int(e, v):
+    return isinstance(e, ast.Constant) and type(e.value) is int and e.value == v
+
+
 def _cmp_atom(left, op, right, pol):
+    # emptiness of a container has one canonical form, its truthiness:
+    #   len(x) > 0, len(x) != 0, len(x) >= 1, 0 < len(x)  ==  x ;  len(x) == 0, len(x) < 1, not len(x) > 0  ==  not x
+    la, ra = _len_arg(left), _len_arg(right)
+    if la is not None and ra is None:
+        if (isinstance(op, ast.Gt) and _is_int(right, 0)) or (isinstance(op, ast.NotEq) and _is_int(right, 0)) or (isinstance(op, ast.GtE) and _is_int(right, 1)):
+            return (u(la), pol)
+        if (isinstance(op, ast.Eq) and _is_int(right, 0)) or (isinstance(op, ast.Lt) and _is_int(right, 1)) or (isinstance(op, ast.LtE) and _is_int(right, 0)):
+            return (u(la), not pol)
+    if ra is not None and la is None:
+        if (isinstance(op, ast.Lt) and _is_int(left, 0)) or (isinstance(op, ast.NotEq) and _is_int(left, 0)) or (isinstance(op, ast.LtE) and _is_int(left, 1)):
+            return (u(ra), pol)
+        if (isinstance(op, ast.Eq) and _is_int(left, 0)) or (isinstance(op, ast.Gt) and _is_int(left, 1)) or (isinstance(op, ast.GtE) and _is_int(left, 0)):
+            return (u(ra), not pol)
     l, r = u(left), u(right)
     if isinstance(op, ast.Lt):
         return ("%s < %s" % (l, r), pol)
